@@ -6,13 +6,15 @@ import (
 	"fmt"
 	"go/token"
 	"go/types"
+	"sort"
 	"strings"
 
 	"golang.org/x/tools/go/ssa"
 )
 
 // baseChain describes what memory an address-valued SSA value is rooted at.
-//   kinds: local | freevar | global:<name> | param:<name>:<type> | call:<callee> | loaded(<inner>).<path>
+//
+//	kinds: local | freevar | global:<name> | param:<name>:<type> | call:<callee> | loaded(<inner>).<path>
 func baseChain(v ssa.Value, depth int) (kind string, path string) {
 	if depth > 12 {
 		return "unknown", ""
@@ -190,6 +192,8 @@ func ruleC17(c *Ctx) {
 	c.floor("C17-R1/stores-scanned", 150)
 	c.count("C17-R1/provider-effects", nProvider)
 	c.floor("C17-R1/provider-effects", 3)
+
+	inputsUnmodified(c, "C17-R5", spT)
 
 	// package-level variables
 	nG := 0
@@ -385,4 +389,140 @@ func lockLabel(t *Terminal) string {
 		return "cached"
 	}
 	return "creating:" + sourceOf(t.Vals[0])
+}
+
+// inputsUnmodified (C17-R5): a public operation does not write through what it was handed. For every exported function
+// or method of the library that takes a pointer-carrying argument (other than the provider receiver, covered by R1, and
+// the configuration setters), every path of its kernel (all helpers inlined) is free of stores, map updates and etree
+// mutator calls on memory derived from such an argument — directly, through fields / elements, or through the tree
+// observers Root() / Parent() / SelectElement… of it. Copies (Element.Copy) and fresh allocations are the operation's own.
+func inputsUnmodified(c *Ctx, rule string, spT *types.Named) {
+	c.rule(rule, "inputs are not modified: no store, map update or etree mutation through memory derived from a pointer-carrying argument of an exported operation (documents, elements, decoded messages, certificates); results are built on copies")
+	config := map[string]bool{"SetSPKeyStore": true, "SetSPSigningKeyStore": true}
+	var roots []*ssa.Function
+	add := func(f *ssa.Function) {
+		if f == nil || f.Blocks == nil || f.Object() == nil || !f.Object().Exported() || config[f.Name()] {
+			return
+		}
+		// a method with an exported name on an unexported type is a helper, not a public operation
+		if recv := f.Signature.Recv(); recv != nil {
+			if nt, ok := derefT(recv.Type()).(*types.Named); ok && !nt.Obj().Exported() {
+				return
+			}
+		}
+		for i, p := range f.Params {
+			if i == 0 && f.Signature.Recv() != nil && types.Identical(derefT(p.Type()), spT) {
+				continue
+			}
+			if mayPointTo(p.Type()) {
+				if _, isFn := p.Type().Underlying().(*types.Signature); isFn {
+					continue
+				}
+				roots = append(roots, f)
+				return
+			}
+		}
+	}
+	for _, pk := range c.P.Lib {
+		for _, f := range pkgFunctions(pk) {
+			if f.Parent() == nil && !isBoundWrapper(f) && f.Synthetic == "" {
+				add(f)
+			}
+		}
+	}
+	sort.Slice(roots, func(i, j int) bool { return roots[i].String() < roots[j].String() })
+	nRoots, nEff := 0, 0
+	observers := map[string]bool{"(*etree.Document).Root": true, "(*etree.Element).Parent": true, "(*etree.Element).SelectElement": true, "(*etree.Element).SelectElements": true,
+		"(*etree.Element).ChildElements": true, "(*etree.Element).FindElement": true, "(*etree.Element).FindElements": true, "(*etree.Element).SelectAttr": true}
+	for _, f := range roots {
+		res := c.kernelFn(f, "*", "-(*SAMLServiceProvider).SigningContext")
+		if res == nil {
+			continue
+		}
+		nRoots++
+		isInput := func(pv *ParamV) bool {
+			if pv.Fn != f {
+				return false
+			}
+			if pv.Idx == 0 && f.Signature.Recv() != nil && types.Identical(derefT(pv.Type()), spT) {
+				return false
+			}
+			return mayPointTo(pv.Type())
+		}
+		var derived func(v Val, d int) bool
+		derived = func(v Val, d int) bool {
+			if v == nil || d > 12 {
+				return false
+			}
+			switch x := v.(type) {
+			case *ParamV:
+				return isInput(x)
+			case *LoadV:
+				return derived(x.Addr, d+1)
+			case *FieldAddrV:
+				return derived(x.X, d+1)
+			case *IndexAddrV:
+				return derived(x.X, d+1)
+			case *FieldV:
+				return mayPointTo(x.Type()) && derived(x.X, d+1)
+			case *IndexV:
+				return mayPointTo(x.Type()) && derived(x.X, d+1)
+			case *SliceV:
+				return derived(x.X, d+1)
+			case *MakeIfaceV:
+				return derived(x.X, d+1)
+			case *ConvV:
+				return mayPointTo(x.Type()) && derived(x.X, d+1)
+			case *TypeAssertV:
+				return derived(x.X, d+1)
+			case *IterElemV:
+				return derived(x.Root, d+1)
+			case *MapElemV:
+				return mayPointTo(x.Type()) && derived(x.M.Coll, d+1)
+			case *CallV:
+				if observers[shortName(x.Callee)] && len(x.Args) > 0 {
+					return derived(x.Args[0], d+1)
+				}
+			}
+			return false
+		}
+		fname := shortFn(f)
+		for _, t := range res.Terms {
+			for _, e := range t.St.events {
+				switch e.Kind {
+				case EvStore:
+					if derived(e.Addr, 0) {
+						nEff++
+						c.bad(rule, fname, "store "+apLval(e.Addr), c.P.InstrPos(e.Instr), "a public operation writes through its argument ("+apLval(e.Addr)+"): the caller's object is modified, repeated or concurrent calls on the same input interfere")
+					}
+				case EvMapUpdate:
+					if derived(e.X, 0) {
+						nEff++
+						c.bad(rule, fname, "map update "+ap(e.X), c.P.InstrPos(e.Instr), "a public operation updates a map reachable from its argument")
+					}
+				case EvCall:
+					ct := lookupContract(e.Callee)
+					if ct == nil {
+						continue
+					}
+					if ct.TreeMutator && len(e.Args) > 0 && derived(e.Args[0], 0) {
+						nEff++
+						c.bad(rule, fname, "tree mutation "+shortName(e.Callee)+" on "+ap(e.Args[0]), c.P.InstrPos(e.Instr), "a public operation restructures the document / element it was given (instead of a copy)")
+					}
+				}
+			}
+		}
+	}
+	c.count(rule+"/operations-with-pointer-inputs", nRoots)
+	c.floor(rule+"/operations-with-pointer-inputs", 15)
+	if nEff == 0 {
+		c.ok(rule, "library", "no write through an input", "-", fmt.Sprintf("%d exported operations with pointer-carrying arguments analysed on all paths", nRoots))
+	}
+}
+
+func derefT(t types.Type) types.Type {
+	if p, ok := t.Underlying().(*types.Pointer); ok {
+		return p.Elem()
+	}
+	return t
 }
